@@ -35,6 +35,12 @@ def configs(ctx):
     out.append(dc(op="pg", n=2, N=3, proposal="fully-adapted", wiring="lib", threshold=1.0, data_seed=33, outlier_prob=0.1))
     out.append(dc(op="pg", n=2, N=3, proposal="bootstrap", wiring="run", threshold=1.0, data_seed=33, outlier_prob=0.1))
     out.append(dc(op="pg", n=2, N=3, proposal="semi-adapted", wiring="run", threshold=1.0, data_seed=34, outlier_prob=0.3, samples=2))
+    # more particles than the random part draws, thresholds other than 0 / 0.5 / 1, three samples
+    for k, prop in enumerate(PROPOSALS):
+        out.append(dc(op="pg", n=1, N=8, proposal=prop, wiring="run", threshold=1.0, outlier_prob=0.3, data_seed=41))
+        out.append(dc(op="pg", n=2, N=5, proposal=prop, wiring=("run", "lib", "run")[k], threshold=(0.0, 0.35, 0.5)[k], data_seed=42, alpha=(1.0, 0.4, 2.2)[k]))
+        out.append(dc(op="pg", n=2, N=4, proposal=prop, wiring="run", threshold=0.8, samples=3, outlier_prob=(0.0, 0.2, 0.0)[k], data_seed=43))
+        out.append(dc(op="pg", n=3, N=2, proposal=prop, wiring=("lib", "run", "run")[k], threshold=0.3, samples=3, data_seed=44, grid=4))
     r0 = random.Random(ctx.sub("sym"))
     # four exchangeable data points: one start state per orbit of the symmetric group determines the whole 243-state kernel
     out.append(dc(op="pg", n=4, style="flat", symmetric=1, proposal=r0.choice(PROPOSALS), wiring="run", alpha=r0.choice([0.7, 1.0, 2.3]), data_seed=29))
@@ -52,6 +58,9 @@ def configs(ctx):
                           data_seed=r.randrange(1 << 30), style=r.choice(["gauss", "flat", "peaked"]), outlier_prob=r.choice([0.0, 0.1, 0.3]),
                           alpha=r.choice([0.3, 1.0, 4.0]), samples=r.choice([1, 2])))
         for prop in PROPOSALS:
+            out.append(dc(op="pg", n=2, N=5, proposal=prop, wiring="run", threshold=1.0, data_seed=45))
+            out.append(dc(op="pg", n=2, N=6, proposal=prop, wiring="lib", threshold=0.0, outlier_prob=0.2, data_seed=46))
+            out.append(dc(op="pg", n=1, N=12, proposal=prop, wiring="run", threshold=0.5, outlier_prob=0.3, data_seed=47))
             out.append(dc(op="pg", n=4, style="flat", symmetric=1, proposal=prop, wiring="lib", outlier_prob=0.2, data_seed=30, alpha=1.6))
             out.append(dc(op="pg", n=4, style="flat", symmetric=1, proposal=prop, wiring="run", N=3, data_seed=31))
             out.append(dc(op="pg", n=4, proposal=prop, wiring="run", data_seed=18, alpha=1.7))
